@@ -104,14 +104,20 @@ def coq_project():
             raise RuntimeError("coq_makefile failed: " + out)
 
 
-def coq_make(targets, timeout=1500, jobs=16):
+def coq_make(targets, timeout=1500, jobs=16, remove_first=()):
     """make through the project Makefile; serialised by a file lock (concurrent
-    makes in one tree corrupt .Makefile.d)"""
+    makes in one tree corrupt .Makefile.d).  remove_first: compiled files to delete
+    (under the lock) so that they are rebuilt and their output is seen"""
     import fcntl
     os.makedirs(TARGET, exist_ok=True)
     with open(os.path.join(TARGET, "coq_make.lock"), "w") as lk:
         fcntl.flock(lk, fcntl.LOCK_EX)
         try:
+            for f in remove_first:
+                try:
+                    os.remove(os.path.join(COQ, f))
+                except FileNotFoundError:
+                    pass
             coq_project()
             return sh(["make", "-j%d" % jobs] + targets, timeout, cwd=COQ)
         finally:
@@ -122,11 +128,7 @@ def coq_prop(prop_file, timeout=1500):
     """(re)compile a property file and everything it depends on; returns
     dict(ok, log, theorems, assumptions {thm: [axioms]})"""
     vo = prop_file[:-2] + ".vo"
-    try:
-        os.remove(os.path.join(COQ, vo))
-    except FileNotFoundError:
-        pass
-    rc, out = coq_make([vo], timeout)
+    rc, out = coq_make([vo], timeout, remove_first=[vo])
     src = strip_comments(open(os.path.join(COQ, prop_file)).read())
     theorems = re.findall(r"^\s*(?:Theorem|Lemma|Corollary|Example)\s+([A-Za-z0-9_']+)", src, re.M)
     printed = re.findall(r"Print\s+Assumptions\s+([A-Za-z0-9_'.]+)\s*\.", src)
